@@ -1,7 +1,8 @@
 (* C05 — every jump lands on the instruction the source construct meant; label removal is a
    pure renumbering. *)
 From Coq Require Import List ZArith Bool Arith.
-From PV Require Import IC10.Values IC10.Machine Valid.Resolve Valid.ResolveProofs.
+From Coq Require Import PrimFloat.
+From PV Require Import IC10.Values IC10.Machine IC10.FloatAlg Valid.Resolve Valid.ResolveProofs Valid.ResolveSem.
 Import ListNotations.
 
 (* (b) reference renumbering: for EVERY program and label, the number that replaces the label
@@ -32,3 +33,27 @@ Example C05_nonvacuous :
   let p := [LInstr IJal [OLbl 0]; LInstr IJ [OLbl 1]; LLabel 0; LInstr IYield []; LInstr IJ [OReg 17]; LLabel 1] : list (@line nat) in
   wf_labels p = true /\ label_target p 0 = Some 2 /\ label_target p 1 = Some 4.
 Proof. repeat split; reflexivity. Qed.
+
+(* (c) SEMANTICS, call-free fragment.  For every labelled program in which labels occur only as the
+   targets of absolute non-linking jumps / branches (each a defined label), without jal / jr / relative
+   branches and without alias / define names, for every behaviour of the attached devices and every
+   number of steps: the label-free program `resolve q` reaches a state with the same effect history,
+   status, registers and memory, its pc being the number of instruction lines before q's pc.
+   Stated for an arbitrary value algebra in which q's line numbers are exactly representable ... *)
+Theorem C05_label_removal_preserves_behaviour_call_free :
+  forall val (A : valg val) (O : @oracle val) (q : list (@line val)),
+    (forall n, n <= length q -> v_to_Z A (of_nat A n) = Some (Z.of_nat n)) ->
+    frag q = true -> forall fuel, exists fuel', (fuel' <= fuel) /\
+    let a := run A O q fuel (init_state A) in
+    let b := run A O (resolve A q) fuel' (init_state A) in
+    hist b = hist a /\ st b = st a /\ regs b = regs a /\ mem b = mem a /\ pc b = instrs_before q (pc a).
+Proof. intros val A O q H. exact (resolve_preserves_behaviour A O q H). Qed.
+
+(* ... and for the chip's binary64 arithmetic, every program of at most 4096 lines *)
+Theorem C05_label_removal_preserves_behaviour_call_free_float :
+  forall (O : @oracle float) (q : list (@line float)),
+    length q <= 4096 -> frag q = true -> forall fuel, exists fuel', (fuel' <= fuel) /\
+    let a := run FloatAlg O q fuel (init_state FloatAlg) in
+    let b := run FloatAlg O (resolve FloatAlg q) fuel' (init_state FloatAlg) in
+    hist b = hist a /\ st b = st a /\ regs b = regs a /\ mem b = mem a /\ pc b = instrs_before q (pc a).
+Proof. exact resolve_preserves_behaviour_float. Qed.
